@@ -54,9 +54,9 @@ type c09prop struct{ base }
 
 func (p *c09prop) CaseCPU(tier string) int {
 	if tier == "thorough" {
-		return 300
+		return 600
 	}
-	return 20
+	return 60
 }
 
 func (p *c09prop) Plan(tier string, seed int64) []core.Segment {
@@ -399,10 +399,37 @@ type segCB struct {
 
 // checkSegments runs suffix.Segments on a naively computed suffix array and
 // LCP table and decides every clause of C10 by brute force.
-func checkSegments(t []byte, lcpM [][]int16, minLen, maxLen int, sortInPlace bool, st *core.Stats) (class, msg string) {
+// nested inputs for the re-entrancy mode
+var (
+	nestedText = []byte("abracadabra-abracadabra")
+	nestedSA   = ref.NaiveSA(nestedText)
+	nestedLCP  = ref.NaiveLCPTable(nestedText, nestedSA)
+)
+
+const canary = int32(-0x5eed)
+
+// checkSegments runs suffix.Segments and decides every clause of C10 by brute
+// force. mode: 0 callback copies only; 1 callback sorts the segment in place
+// (as osap.go does); 2 the LCP table and the suffix array are sub-slices of
+// one allocation (lcp directly in front of sa, spare capacity behind both,
+// guarded by canaries); 3 the callback itself calls Segments on another text
+// (re-entrancy: calls must not share state).
+func checkSegments(t []byte, lcpM [][]int16, minLen, maxLen int, mode int, st *core.Stats) (class, msg string) {
 	n := len(t)
 	sa := ref.NaiveSA(t)
 	lcp := ref.NaiveLCPTable(t, sa)
+	var arena []int32
+	if mode == 2 {
+		arena = make([]int32, 2*n+8)
+		copy(arena[:n], lcp)
+		copy(arena[n:2*n], sa)
+		for i := 2 * n; i < len(arena); i++ {
+			arena[i] = canary
+		}
+		lcp = arena[:n]    // capacity reaches into sa
+		sa = arena[n : 2*n] // capacity reaches into the canaries
+	}
+	sortInPlace := mode == 1
 	var cbs []segCB
 	if pv := call(func() {
 		suffix.Segments(sa, lcp, minLen, maxLen, func(m int, seg []int32) {
@@ -410,9 +437,27 @@ func checkSegments(t []byte, lcpM [][]int16, minLen, maxLen int, sortInPlace boo
 			if sortInPlace {
 				sort.Slice(seg, func(i, j int) bool { return seg[i] < seg[j] })
 			}
+			if mode == 3 && len(cbs) <= 3 {
+				s2 := append([]int32(nil), nestedSA...)
+				l2 := append([]int32(nil), nestedLCP...)
+				suffix.Segments(s2, l2, 1, 5, func(int, []int32) {})
+			}
 		})
 	}); pv != nil {
 		return "segments-panic", fmt.Sprintf("Segments(minLen=%d,maxLen=%d) panics: %v", minLen, maxLen, pv)
+	}
+	if mode == 2 {
+		for i := 2 * n; i < len(arena); i++ {
+			if arena[i] != canary {
+				return "writes-beyond-slice", fmt.Sprintf("Segments wrote %d behind the end of the suffix array slice", arena[i])
+			}
+		}
+		want := ref.NaiveLCPTable(t, ref.NaiveSA(t))
+		for i := range want {
+			if arena[i] != want[i] {
+				return "lcp-modified", fmt.Sprintf("Segments modified lcp[%d]", i)
+			}
+		}
 	}
 	st.Add("callbacks", int64(len(cbs)))
 	cnt := make([][]uint16, n)
@@ -537,11 +582,12 @@ func (p *c10prop) Run(c *core.Case, st *core.Stats) []core.Violation {
 		}
 	}
 	run := func(mn, mx int) []core.Violation {
-		for mode := 0; mode < 2; mode++ {
-			class, msg := checkSegments(t, lm, mn, mx, mode == 1, st)
+		for mode := 0; mode < 4; mode++ {
+			class, msg := checkSegments(t, lm, mn, mx, mode, st)
 			st.Inc("segments_calls")
+			st.Inc(fmt.Sprintf("segments_calls_mode%d", mode))
 			if class != "" {
-				return []core.Violation{core.V(c, class, "text %q minLen=%d maxLen=%d (callback sorts in place: %v): %s", t, mn, mx, mode == 1, msg)}
+				return []core.Violation{core.V(c, class, "text %q minLen=%d maxLen=%d (mode %d: 0 callback copies, 1 callback sorts in place, 2 lcp and sa share one allocation, 3 callback calls Segments itself): %s", t, mn, mx, mode, msg)}
 			}
 		}
 		return nil
@@ -571,7 +617,7 @@ func (p *c10prop) Run(c *core.Case, st *core.Stats) []core.Violation {
 
 func init() {
 	core.Register(&c10prop{base{id: "C10", level: "exploration",
-		rule:        "exhaustive small scope: all texts over {a,b} up to length 12 (thorough 16) and over {a,b,c} up to length 7 (thorough 10), each with ALL 0 <= minLen <= maxLen <= 5 (thorough 6), plus seeded family texts up to 200 bytes with random (minLen, maxLen); Segments receives a naively computed suffix array and LCP table (independent of C09); each call runs twice: callback copies only / callback sorts the segment in place (as osap.go does); every clause is decided by brute force over all suffix pairs from a pairwise LCP matrix; non-trivial iff len(t) >= 3; distinct = distinct (text, bounds)",
+		rule:        "exhaustive small scope: all texts over {a,b} up to length 12 (thorough 16) and over {a,b,c} up to length 7 (thorough 10), each with ALL 0 <= minLen <= maxLen <= 5 (thorough 6), plus seeded family texts up to 200 bytes with random (minLen, maxLen); Segments receives a naively computed suffix array and LCP table (independent of C09); each call runs in four modes: callback copies only / callback sorts the segment in place (as osap.go does) / lcp and sa are adjacent sub-slices of one allocation guarded by canaries / the callback calls Segments itself on another text; every clause is decided by brute force over all suffix pairs from a pairwise LCP matrix; non-trivial iff len(t) >= 3; distinct = distinct (text, bounds)",
 		assumptions: []string{"minLen > maxLen and negative bounds are outside the quantifier of C10 and are not executed"},
 		mandatory:   []string{"segments_calls", "pairs_checked", "texts_with_fall_and_rise_profile", "empty_text", "callbacks"}}})
 }
